@@ -718,6 +718,24 @@ def build_fieldseq(args, features):
     return '\n'.join(out) + '\n'
 
 
+def build_parserconsts(args, features):
+    """//@parserconsts <file> <layout fn>: the proof parser's own table of layout constants (proof_parser/src/layout.rs,
+    `impl LayoutConstants { pub fn <layout>() -> Self { LayoutConstants { name: number, .. } } }`) as spec constants, re-read on
+    every run: an INDEPENDENT copy of the layout's column counts inside the repository, used as the oracle of a cross-check."""
+    path, lname = args[0], args[1]
+    src, rtoks, item = locate(path, 'fn', 'LayoutConstants::' + lname, features)
+    ts = rtoks[item.start:item.end]
+    vals = {}
+    for k, t in enumerate(ts):
+        if t.kind == 'id' and k + 2 < len(ts) and is_p(ts[k + 1], ':') and ts[k + 2].kind == 'num':
+            vals[t.text] = int(ts[k + 2].text.split('_')[0] if not ts[k + 2].text.startswith('0x') else ts[k + 2].text, 0)
+    need = ('num_columns_first', 'num_columns_second', 'constraint_degree', 'cpu_component_step')
+    for n in need:
+        if n not in vals:
+            raise AssembleError('lost anchor: parserconsts %s: field %s not found in %s' % (lname, n, path))
+    return ''.join('pub spec const PARSER_%s: nat = %d;\n' % (n.upper(), vals[n]) for n in need)
+
+
 def build_from_variants(args, features):
     path, ename = args[0], args[1]
     opts = dict(a.split('=', 1) for a in args[2:])
@@ -853,6 +871,9 @@ def assemble(fragments, features, out_path, stub_keys=()):
                 i += 1
             elif d == 'fieldseq':
                 emit(build_fieldseq(rest, features))
+                i += 1
+            elif d == 'parserconsts':
+                emit(build_parserconsts(rest, features))
                 i += 1
             elif d == 'iffeature':
                 # //@iffeature <feat> : next line kept only if feature enabled
